@@ -406,7 +406,7 @@ func init() {
 			}
 			fmt.Fprintf(w, "-- GENERATED from /repo internal/config (reflection over config.Config + behaviour of Redacted()) by `harness c35 facts`. Do not edit.\n")
 			fmt.Fprintf(w, "namespace MM.Gen.C35\n")
-			fmt.Fprintf(w, "structure Leaf where\n  yaml : List String\n  go : List String\n\n")
+			fmt.Fprintf(w, "structure Leaf where\n  yaml : List String\n  go : List String\n  /-- the leaf's yaml name or Go field name matches (?i)key|password|secret|private|token|hash|credential|passphrase -/\n  looksSecret : Bool\n\n")
 			fmt.Fprintf(w, "def placeholder : List UInt8 := %s\n\n", leanBytes([]byte(config.C35RedactedValue)))
 			fmt.Fprintf(w, "/-- every string-typed leaf of config.Config (yaml path, Go field path); `[]` = list entry -/\n")
 			fmt.Fprintf(w, "def leaves : List Leaf := [\n")
@@ -415,7 +415,7 @@ func init() {
 				if i == len(schema)-1 {
 					sep = ""
 				}
-				fmt.Fprintf(w, "  ⟨%s, %s⟩%s\n", q(lf.yaml), q(lf.goN), sep)
+				fmt.Fprintf(w, "  ⟨%s, %s, %v⟩%s\n", q(lf.yaml), q(lf.goN), c35NameLooksSecret(lf), sep)
 			}
 			fmt.Fprintf(w, "]\n\n/-- paths whose every instance Redacted() replaced by the placeholder -/\n")
 			fmt.Fprintf(w, "def redactedPaths : List (List String) := [\n")
@@ -490,6 +490,14 @@ func init() {
 			fmt.Fprintf(w, "end MM.Gen.C35\n")
 		},
 	})
+}
+
+var c35SecretNameRe = regexp.MustCompile(`(?i)key|password|secret|private|token|hash|credential|passphrase`)
+
+// c35NameLooksSecret: the broad, name-based screen emitted as the `looksSecret` fact (every such leaf
+// must be redacted or be on the commented allow-list in MM/Props/C35.lean).
+func c35NameLooksSecret(lf c35Leaf) bool {
+	return c35SecretNameRe.MatchString(lf.yaml[len(lf.yaml)-1]) || c35SecretNameRe.MatchString(lf.goN[len(lf.goN)-1])
 }
 
 // c35LooksSecret is only a generator heuristic (where to put hostile values and what to watch);
